@@ -105,3 +105,65 @@ for kind in ("pow2-aligned", "pow2-unaligned", "not-pow2"):
 
     c.setup = setup
     con.cases.append(c)
+
+
+# ---- global offsets: the address a register is decoded at is the SUM of the offsets of all enclosing register files -----
+# RegisterObject.__init__ (registers, memories, arrays) and RegFile.__init__ (nested files): global = parent's GLOBAL
+# offset + own offset relative to the parent, for symbolic offsets (the parent's own relative offset is a different
+# number: with two levels of nesting it must not be used instead).
+from pyvc.contracts import PyInt  # noqa: E402
+
+
+class _Tools:
+    _word_stride_ = 4
+
+
+def offset_spec(sx, self, parent, name, **kw):
+    env = sx.it.case_env
+    pg, own = env["parent_global"], env["own"]
+    if sx.branch(sym.Not(sym.eq(sym.pymod(pg + own, 4), 0))):
+        raise C.SpecRaise(AssertionError)
+    real = sx.real_args[0]
+    return C.Pred(lambda res: res is None and sx.it.ctx.entails(sym.to_z3(real.fields["_global_offset_"]) == pg + own) and real.fields["_name_"] == "reg", "global offset = parent's global offset + own offset")
+
+
+def _reg_cls_attr(it, cls, name):
+    if name == "_parent_offset_":
+        return cls.params["own"]
+    return I._MISSING
+
+
+I.CLS_ATTR_MODELS[REG.RegisterObject] = _reg_cls_attr
+
+con = contract("cohdl.std.reg.reg:RegisterObject.__init__", PROPS)
+SELF = Built([], lambda env: SObj(I.SCls(REG.RegisterObject, own=env["own"]), _register_tools_=_Tools), lambda a: "None", lambda a: None)
+PARENT = Built([], lambda env: SObj(REG.RegFile, _global_offset_=env["parent_global"], _parent_offset_=env["parent_own"]), lambda a: "None", lambda a: None)
+NAME = Built([], lambda env: "reg", lambda a: "'reg'", lambda a: None)
+c = Case("nested", [SELF, PARENT, NAME], offset_spec)
+c.extra_shapes = [PyInt("parent_global", 0, None, 0, 64), PyInt("parent_own", 0, None, 0, 64), PyInt("own", 0, None, 0, 64)]
+c.native = False
+con.cases.append(c)
+
+
+def file_offset_spec(sx, self, parent, name, **kw):
+    env = sx.it.case_env
+    real = sx.real_args[0]
+    return C.Pred(lambda res: res is None and sx.it.ctx.entails(sym.to_z3(real.fields["_global_offset_"]) == env["parent_global"] + env["own"]), "global offset of a nested register file = parent's global offset + own offset")
+
+
+def _file_cls_attr(it, cls, name):
+    if name == "_parent_offset_":
+        return cls.params["own"]
+    if name == "_member_types_":
+        return {}
+    return I._MISSING
+
+
+I.CLS_ATTR_MODELS[REG.RegFile] = _file_cls_attr
+con = contract("cohdl.std.reg.reg:RegFile.__init__", PROPS)
+FSELF = Built([], lambda env: SObj(I.SCls(REG.RegFile, own=env["own"]), _register_tools_=_Tools), lambda a: "None", lambda a: None)
+c = Case("nested-file-without-members", [FSELF, PARENT, NAME], file_offset_spec)
+c.extra_shapes = [PyInt("parent_global", 0, None, 0, 64), PyInt("parent_own", 0, None, 0, 64), PyInt("own", 0, None, 0, 64)]
+c.native = False
+c.models = [(REG.RegisterObject.__dict__["_unit_count_"].__func__, lambda it, cls: 16)]
+con.cases.append(c)
